@@ -132,11 +132,13 @@ class VRange:
 
 
 class VStr:
-    """&str over ASCII: a concrete-length list of symbolic byte codes (Int terms)."""
-    __slots__ = ("bytes",)
+    """&str: a concrete-length list of byte codes (Int terms). `bounds` is the set of byte offsets that are character
+    boundaries (None: every offset, i.e. ASCII); multi-byte characters are runs of constant bytes between two boundaries."""
+    __slots__ = ("bytes", "bounds")
 
-    def __init__(self, bs):
+    def __init__(self, bs, bounds=None):
         self.bytes = list(bs)
+        self.bounds = None if bounds is None else set(bounds)
 
     def __repr__(self):
         return f"VStr({self.bytes})"
